@@ -44,6 +44,7 @@ type foundViolation struct {
 	index int
 	count int
 	prior []int
+	race  *raceFound
 }
 
 type finding struct {
@@ -423,6 +424,9 @@ func (c *checker) reduceHistory(rp *Replay, budget int) *Replay {
 }
 
 func (c *checker) makeReplay(fv *foundViolation) string {
+	if fv.race != nil {
+		return c.makeRaceReplay(fv)
+	}
 	hbudget := 40
 	if c.tier == "thorough" {
 		hbudget = 200
